@@ -2,7 +2,10 @@
 
 package simhook
 
-import "io"
+import (
+	"io"
+	"sync"
+)
 
 // Enabled reports whether the simulation hooks are compiled in.
 const Enabled = false
@@ -18,3 +21,6 @@ func Corrupt(site string, buf []byte)                 {}
 func Recovered(r any)                                 {}
 func WrapWriteCloser(w io.WriteCloser) io.WriteCloser { return w }
 func WrapReadCloser(r io.ReadCloser) io.ReadCloser    { return r }
+
+// WaitGroup is sync.WaitGroup itself when the hooks are compiled out.
+type WaitGroup = sync.WaitGroup
